@@ -48,7 +48,7 @@ CHECKS = {
         ref='DESIGN.md 3/C05'),
     'C08': dict(
         technique='robustness fuzzing with structured generators: hostile trees x per-pseudo-class probe selectors x all entry points, oracle = no exception (TypeError only for non-Tag targets)',
-        text='Hostile form soups (near-valid dates/weeks/numbers, arbitrary dir/lang/type), XML with unknown namespaces, detached fragments, multiple top-level nodes and odd-typed attribute values (None, numbers, bytes, tuples, nested lists) are queried with one probe per pseudo-class (plain and negated) plus random full-grammar selectors through all six entry points; detached single elements (extract(), new_tag) are call targets too; selectors with astronomically large An+B terms must finish within a traced step budget (termination without a clock).',
+        text='Hostile form soups (near-valid dates/weeks/numbers, arbitrary dir/lang/type), XML with unknown namespaces, detached fragments, multiple top-level nodes and odd-typed attribute values (None, numbers, bytes, tuples, nested lists) are queried with one probe per pseudo-class (plain and negated) plus random full-grammar selectors through all six entry points; detached single elements (extract(), new_tag) are call targets too; selectors with astronomically large An+B terms must finish within a traced step budget (termination without a clock); every call runs under a CPU-time interrupt, and a call that trips it is re-run under the line-event counter - only exceeding 3,000,000 traced steps is reported as non-termination.',
         note='Trusted: the generator keeps odd-typed values on attributes only attribute/class/id selectors read, as the statement scopes it.',
         ref='DESIGN.md 3/C08'),
     'C11': dict(
@@ -88,7 +88,7 @@ CHECKS = {
         ref='DESIGN.md 3/C04'),
     'C14': dict(
         technique='schedule-owning concurrency testing: deterministic thread scheduler over line/opcode yield points, exhaustive single pre-emption + Hypothesis-drawn burst/PCT schedules, linearizability-style oracle (each outcome equals its solo outcome)',
-        text='Real threads, one running at a time, yield points at every traced line (thorough: opcode in css_parser.py) inside soupsieve. Every single pre-emption of every ordered pair of compile operations from the pool is enumerated; mixed compile/purge/select/match/filter/closest workloads on 2-4 threads run under drawn burst and priority schedules. Operations at the interpreter limits (4400-digit An+B coefficient, 4400-digit years) are in the pools with all their single pre-emptions. Outcomes must equal solo outcomes; no poisoned cache entry may remain; the interpreter-wide int-digit and recursion limits must be unchanged after every run.',
+        text='Real threads, one running at a time, yield points at every traced line (thorough: opcode in css_parser.py) inside soupsieve. Every single pre-emption of every ordered pair of compile operations from the pool is enumerated; mixed compile/purge/select/match/filter/closest workloads on 2-4 threads run under drawn burst and priority schedules. Operations at the interpreter limits (4400-digit An+B coefficient, 4400-digit years) are in the pools with all their single pre-emptions; operations that must miss the name memo run against a memo filled to capacity (opcode granularity in util.py); for 20 pseudo-classes, pre-empted pairs of selects run as the first use of the library in a fresh interpreter. Outcomes must equal solo outcomes; no poisoned cache entry may remain; the interpreter-wide int-digit and recursion limits must be unchanged after every run.',
         note='Trusted: C-level atomicity of lru_cache/re; only interleavings at traced boundaries are explored; >= 2 pre-emptions are sampled.',
         ref='DESIGN.md 3/C14'),
     'C15': dict(
@@ -98,12 +98,12 @@ CHECKS = {
         ref='DESIGN.md 3/C15'),
     'C16': dict(
         technique='generated-program testing: enumerated/drawn import-statement sequences, each run in a fresh interpreter, differential against the soupsieve-first reference program',
-        text='All import sequences up to length 2 (quick) / 3 (thorough) over 12 import forms of bs4, soupsieve and their submodules, plus drawn longer ones, run as python -c programs; each must exit 0, print exactly the reference JSON line, agree between bs4.select and soupsieve.select, leave stderr empty and record no warning from the soupsieve package.',
+        text='All import sequences up to length 2 (quick) / 3 (thorough) over 14 import forms of bs4, soupsieve and their submodules (incl. the two star imports), plus drawn longer ones, run as python -c programs; each must exit 0, print exactly the reference JSON line, agree between bs4.select and soupsieve.select, leave stderr empty and record no warning from the soupsieve package.',
         note='Trusted: /venv/bin/python with PYTHONPATH pointing at the repository under test.',
         ref='DESIGN.md 3/C16'),
     'C20': dict(
         technique='bounded-exhaustive sweep of (pattern, offset) pairs + property-based testing of parser-raised errors, DEBUG differential and pretty-printer round trip under a traced step budget',
-        text='Every pattern over 7 symbols (incl. three line-break styles) up to length 5/7 x every offset is checked against line/column/context by definition; mutated multi-line selectors must raise errors whose location matches the reported position; DEBUG must not change structure or selection of valid selectors nor the exception type, message and location of invalid ones (one or two mistakes per pattern); pretty() must finish within a step budget counted by sys.settrace and equal repr up to whitespace.',
+        text='Every pattern over 7 symbols (incl. three line-break styles) up to length 5/7 x every offset is checked against line/column/context by definition; mutated multi-line selectors must raise errors whose location matches the reported position; DEBUG must not change structure or selection of valid selectors nor the exception type, message and location of invalid ones (one or two mistakes per pattern); pretty() must finish within a step budget counted by sys.settrace (and must not burn 20 s of CPU inside one C-level call) and equal repr up to whitespace; selectors include attribute values long enough to overflow the 200 characters re.Pattern.__repr__ shows.',
         note='Trusted: the line/column oracle (self-evident), stdout capture; termination is judged by a step count, never by a clock.',
         ref='DESIGN.md 3/C20'),
 }
